@@ -6,7 +6,7 @@ import os
 from vlib import core, e2e
 
 
-def make_sources(rng, work, nsrc, kinds=('plain',), tie_heavy=False, max_msgs=40, min_msgs=1):
+def make_sources(rng, work, nsrc, kinds=('plain',), tie_heavy=False, max_msgs=40, min_msgs=1, frac=False):
     """returns list of dicts {path, name, msgs:[(epoch, bytes)], log}"""
     srcs = []
     base = 1672531200 + rng.below(1000)
@@ -15,7 +15,8 @@ def make_sources(rng, work, nsrc, kinds=('plain',), tie_heavy=False, max_msgs=40
         steps = (0, 0, 0, 1) if tie_heavy else (0, 1, 1, 2, 5, 30)
         log = e2e.gen_log(rng, n, start=base + rng.below(4), steps=steps, final_newline=not rng.chance(1, 4),
                           tag=('s%d ' % i).replace('0', 'o').replace('1', 'i').replace('2', 'z').replace('3', 'e')
-                          .replace('4', 'a').replace('5', 'f').encode(), weird=False, body_min=4)
+                          .replace('4', 'a').replace('5', 'f').encode(), weird=False, body_min=4,
+                          frac_choices=((0, 100, 400, 900, 1000, 1500, 999999999) if frac else None))
         kind = rng.pick(kinds)
         name = 'src%c.log%s' % (chr(ord('a') + i), e2e.SUFFIX[kind])
         path = os.path.join(work, name)
@@ -27,7 +28,7 @@ def make_sources(rng, work, nsrc, kinds=('plain',), tie_heavy=False, max_msgs=40
             b = log.data[off:off + ln]
             if k == len(log.msgs) - 1 and not b.endswith(b'\n'):
                 b += b'\n'
-            msgs.append((t, b))
+            msgs.append((t * 1000000000 + log.ns[k], b))
         srcs.append({'path': path, 'name': name, 'msgs': msgs, 'log': log, 'kind': kind})
     return srcs
 
@@ -123,7 +124,8 @@ def multi_source_oracle(ctx, n_inputs, n_plans, kinds=('plain',), max_src=6, sig
         nsrc = rng.range(1, max_src)
         work = os.path.join(ctx.work, 'in%d' % k)
         os.makedirs(work, exist_ok=True)
-        srcs = make_sources(rng, work, nsrc, kinds=kinds, tie_heavy=rng.chance(*tie_heavy_ratio))
+        # every third input carries 9-digit fractions that differ only below a microsecond
+        srcs = make_sources(rng, work, nsrc, kinds=kinds, tie_heavy=rng.chance(*tie_heavy_ratio), frac=(k % 3 == 2))
         if permute:
             srcs = rng.shuffle(srcs)
         exp, merged = expected_stdout(srcs)
